@@ -259,7 +259,12 @@ def main(argv):
                 "Lean 4 kernel (lake build of RQ.Props.%s); axioms used: %s" % (prop, sorted({a for v in aud["axioms"].values() for a in v})),
                 "harness/extract.py (tables regenerated from /repo on this run) and harness/instantiate.py (textual Rat->Float copy of the model)",
                 "correspondence harness: model (Float instance, compiled driver) vs the real rqalpha code on the same inputs",
-            ] + list(getattr(mod, "TRUSTED", [])),
+            ] + list(getattr(mod, "TRUSTED", [])) + (
+                ["free-running World correspondence (harness/world_sync.py): the run's inputs are recorded by harness wrappers around Environment.can_submit_order, the broker's "
+                 "submit/cancel/before_trading/on_bar/after_trading, Portfolio.deposit_withdraw/_pre_before_trading and Account._on_settlement/finance_repay; every day's market table "
+                 "is derived from the generated bundle, never from rqalpha's look-ups; the model (RQ/Model/World*.lean, Float instance) runs freely from the starting portfolio; "
+                 "World-level theorems are in RQ/Lemmas/World*.lean (sub-agent proofs, kernel-checked, audited through the corollaries of the property file)"]
+                if any(c.name.startswith("World") for c in ctx.corrs) else []),
             "evaluations": ctx.evaluations,
             "distinct_nontrivial": len(ctx.signatures),
             "rule": getattr(mod, "RULE", ""),
